@@ -29,10 +29,12 @@ CONSTANTS Deviations,      \* subset of AllDevs
           InputMenu,       \* set of input declarations: sequences of shapes; dims: literal | 1001.. named | 2001.. unnamed
           MaxNodes,
           Vals,            \* values every free dim is bound to
-          Rich             \* 1: reduced menus (exhaustive runs)  2: full menus (simulation)
+          Rich,            \* 1: reduced menus (exhaustive runs)  2: full menus (simulation)
+          Chain            \* TRUE: node k+1 must consume the output of node k (exhaustive runs reach depth 4)
 
-VARIABLES ins, nodes, meta, stage, pc, phase, cur, sshape, cval, symmap, dec, rep
-vars == <<ins, nodes, meta, stage, pc, phase, cur, sshape, cval, symmap, dec, rep>>
+VARIABLES ins, nodes, meta, stage, pc, phase, cur, sshape, cval, symmap, dec, rep,
+          faithful         \* FALSE once the pass took the design's step where the code takes a deviation
+vars == <<ins, nodes, meta, stage, pc, phase, cur, sshape, cval, symmap, dec, rep, faithful>>
 
 AllDevs == {"abs_assumes_nonneg"}
 NoDevs == {}
@@ -49,6 +51,7 @@ IsUnk(d) == d = UNKD
 IsNamed(d) == ~IsLit(d) /\ ~IsUnk(d)
 NOSH == << <<-9999>> >>          \* value.shape is None
 SFAIL == << <<-9998>> >>         \* shape inference raised
+NOTYPE == << <<-9996>> >>        \* value.shape is None and value.type is None (inference raised on its producer)
 LitShape(s) == [i \in 1..Len(s) |-> Lit(s[i])]
 AllLit(sh) == \A i \in 1..Len(sh) : IsLit(sh[i])
 Lits(sh) == [i \in 1..Len(sh) |-> sh[i][1]]
@@ -158,9 +161,12 @@ NOSYM == [k |-> "none", d |-> <<>>, o |-> R(0)]
 SymShapeV(d) == [k |-> "shape", d |-> d, o |-> R(0)]
 SymVal(o) == [k |-> "val", d |-> <<>>, o |-> o]
 
-Res(o) == IF o.t = "r" /\ symmap[o.i].k = "val" THEN symmap[o.i].o ELSE o      \* process_node: replace_input_with
+\* process_node: replace_input_with.  A value that was folded afterwards is a new object (initializer /
+\* Constant output) that carries no symbolic value: the entry stays in the map under the dead object.
+Res(o) == IF o.t = "r" /\ cval[o.i] = NOC /\ symmap[o.i].k = "val" THEN symmap[o.i].o ELSE o
 ConstOf(o) == IF o.t = "c" THEN Vec("i", o.v) ELSE cval[o.i]
-SShapeOf(o) == IF o.t = "c" THEN <<Lit(Len(o.v))>> ELSE sshape[o.i]
+SShapeOf(o) == IF o.t = "c" THEN <<Lit(Len(o.v))>> ELSE IF sshape[o.i] = NOTYPE THEN NOSH ELSE sshape[o.i]
+Untyped(o) == o.t = "r" /\ sshape[o.i] = NOTYPE
 NOSV == << <<-9997>> >>
 \* OptimizerState.get_shape_value: a small int64 constant (1-D only) or a Shape in the map
 ShapeValue(o) == LET c == ConstOf(o) IN
@@ -230,10 +236,12 @@ SliceS(inS, ax, s, e, k) ==
        IF a = -1000 THEN SFAIL
        ELSE [i \in 1..Len(inS) |-> IF i = a + 1 THEN (IF IsLit(inS[i]) THEN Lit(SlicePlanAxis(inS[i][1], s, e, k)[3]) ELSE UNKD)
                                     ELSE inS[i]]
+\* _do_inference: skipped when an input has no type; an exception leaves the output as it was
 SInfer(n) ==
   LET Sh(j) == SShapeOf(n.a[j])
       Kc(j) == ConstOf(n.a[j])
-  IN CASE n.op = "Shape" -> IF Sh(1) = NOSH THEN <<UNKD>> ELSE <<Lit(Len(PySlice(Sh(1), n.p[1], n.p[2])))>>
+  IN IF \E j \in 1..Len(n.a) : Untyped(n.a[j]) THEN SFAIL ELSE
+     CASE n.op = "Shape" -> IF Sh(1) = NOSH THEN <<UNKD>> ELSE <<Lit(Len(PySlice(Sh(1), n.p[1], n.p[2])))>>
        [] n.op = "Size" -> <<>>
        [] n.op = "Gather" -> IF Sh(1) = NOSH \/ Sh(1) = <<>> THEN NOSH
                              ELSE (IF n.p[1] = 1 THEN <<>> ELSE Sh(2)) \o Tail(Sh(1))
@@ -265,10 +273,19 @@ IntOperands == {R(i) : i \in IntVals}
 LenOf(o) == IF o.t = "c" THEN Len(o.v) ELSE meta[o.i].len
 RankOf(o) == IF o.t = "c" THEN 1 ELSE meta[o.i].rank
 SliceLen(n, r) == SlicePlanAxis(n, r[1], r[2], r[3])[3]
+\* data ops whose other operands are constants take the newest data value or the first input only
+\* (keeps the simulated models on shape chains instead of piles of unrelated data ops)
+FocusData == IF Rich = 1 THEN DataVals ELSE {1, CHOOSE x \in DataVals : \A y \in DataVals : y <= x}
 
-Push(n, m) == /\ nodes' = Append(nodes, n)
+\* simulation (Rich = 2) stays on shape chains: the first node is a Shape, at most two nodes are pure data ops
+PureData(n, m) == m.k = "f" /\ \A j \in 1..Len(n.a) : n.a[j].t = "c" \/ meta[n.a[j].i].k = "f"
+NPure == Cardinality({k \in 1..Len(nodes) : PureData(nodes[k], meta[V(k)])})
+Push(n, m) == /\ (Chain /\ nodes # <<>>) => \E j \in 1..Len(n.a) : n.a[j] = R(V(Len(nodes)))
+              /\ Rich = 2 => /\ (nodes = <<>> => n.op = "Shape")
+                             /\ (PureData(n, m) => NPure < 2)
+              /\ nodes' = Append(nodes, n)
               /\ meta' = Append(meta, m)
-              /\ UNCHANGED <<ins, stage, pc, phase, cur, sshape, cval, symmap, dec, rep>>
+              /\ UNCHANGED <<ins, stage, pc, phase, cur, sshape, cval, symmap, dec, rep, faithful>>
 Building == stage = "build" /\ Len(nodes) < MaxNodes
 
 GenShape == Building /\ \E x \in DataVals, r \in ShapeRanges :
@@ -301,22 +318,24 @@ GenReshapeI == Building /\ \E s \in IntVals, t \in {<<-1>>, <<1>>} :
 GenSliceI == Building /\ \E s \in VecVals, r \in SliceRanges :
               /\ SliceLen(meta[s].len, r) >= 1
               /\ Push(Node("Slice", <<R(s)>>, <<0>> \o r), MetaI(1, SliceLen(meta[s].len, r)))
-GenUnaryD == Building /\ \E op \in (IF Rich = 1 THEN {"Relu"} ELSE {"Relu", "Identity"}), x \in DataVals :
+GenUnaryD == Building /\ \E op \in (IF Rich = 1 THEN {"Relu"} ELSE {"Relu", "Identity"}), x \in FocusData :
               Push(Node(op, <<R(x)>>, <<>>), meta[x])
 GenAddD == Building /\ \E x \in DataVals, y \in DataVals :
               x <= y /\ Push(Node("Add", <<R(x), R(y)>>, <<>>), MetaF(Max2(meta[x].rank, meta[y].rank)))
 GenReshapeD == Building /\ \E x \in DataVals, o \in {R(i) : i \in VecVals} \cup {C(c) : c \in ReshapeConsts}, az \in {0, 1} :
               /\ LenOf(o) <= 3
+              /\ (o.t = "c" => x \in FocusData)
               /\ (az = 1 => Rich = 2 /\ (o.t = "c" => \A i \in 1..Len(o.v) : o.v[i] # -1))
               /\ Push(Node("Reshape", <<R(x), o>>, <<az>>), MetaF(LenOf(o)))
 GenExpandD == Building /\ \E x \in DataVals, o \in {R(i) : i \in VecVals} \cup {C(c) : c \in ExpandConsts} :
               /\ LenOf(o) <= 3
+              /\ (o.t = "c" => x \in FocusData)
               /\ Push(Node("Expand", <<R(x), o>>, <<>>), MetaF(Max2(meta[x].rank, LenOf(o))))
 GenConcatD == Building /\ \E x \in DataVals, y \in DataVals, ax \in {0, 1, -1} :
               /\ meta[x].rank = meta[y].rank /\ meta[x].rank >= 1 /\ ax < meta[x].rank
               /\ (ax = -1 => Rich = 2)
               /\ Push(Node("Concat", <<R(x), R(y)>>, <<ax>>), meta[x])
-GenSliceD == Building /\ \E x \in DataVals, ax \in {0, 1}, r \in SliceRanges :
+GenSliceD == Building /\ \E x \in FocusData, ax \in {0, 1}, r \in SliceRanges :
               /\ ax < meta[x].rank
               /\ Push(Node("Slice", <<R(x)>>, <<ax>> \o r), meta[x])
 
@@ -339,7 +358,7 @@ StartFold ==
   /\ cval' = [i \in 1..NV |-> NOC]
   /\ symmap' = [i \in 1..NV |-> NOSYM]
   /\ dec' = [k \in 1..Len(nodes) |-> KEEP(nodes[k])]
-  /\ UNCHANGED <<ins, nodes, meta, rep>>
+  /\ UNCHANGED <<ins, nodes, meta, rep, faithful>>
 
 \* process_node, first half: inputs whose symbolic value is another value are replaced by it;
 \* Constant nodes publish const_value/shape; every other node gets node-level shape inference,
@@ -353,10 +372,11 @@ ResolveAndInfer ==
            THEN /\ cval' = [cval EXCEPT ![vcur] = rn.c]
                 /\ sshape' = [sshape EXCEPT ![vcur] = LitShape(rn.c.shape)]
            ELSE /\ cval' = cval
-                /\ sshape' = [sshape EXCEPT ![vcur] = IF inf = SFAIL THEN @
-                                                    ELSE LET m == MergeShapes(@, inf) IN IF m = SFAIL THEN @ ELSE m]
+                /\ sshape' = [sshape EXCEPT ![vcur] = IF inf = SFAIL THEN (IF @ = NOSH THEN NOTYPE ELSE @)
+                                                    ELSE LET m == MergeShapes(IF @ = NOTYPE THEN NOSH ELSE @, inf)
+                                                         IN IF m = SFAIL THEN @ ELSE m]
   /\ phase' = "eval"
-  /\ UNCHANGED <<ins, nodes, meta, stage, pc, symmap, dec, rep>>
+  /\ UNCHANGED <<ins, nodes, meta, stage, pc, symmap, dec, rep, faithful>>
 
 Advance(d) == /\ dec' = [dec EXCEPT ![pc] = [d EXCEPT !.dev = @ \cup dec[pc].dev]]
               /\ pc' = pc + 1 /\ phase' = "enter"
@@ -368,22 +388,26 @@ Kind(n) == IF n.op = "Constant" THEN "const"
 Foldable(n) == /\ n.op # "Constant" /\ \A j \in 1..Len(n.a) : ConstOf(n.a[j]) # NOC
                /\ ~Bad(EvalNode(n, cval))
 \* after a partial evaluator returned None: record sym, then generic folding or keep
-NoReplace(sym) ==
+NoReplaceF(sym, fa) ==
+  /\ faithful' = fa
   /\ symmap' = IF sym = NOSYM THEN symmap ELSE [symmap EXCEPT ![vcur] = sym]
   /\ IF Foldable(cur)
      THEN LET c == EvalNode(cur, cval) IN
           /\ cval' = [cval EXCEPT ![vcur] = c]
-          /\ sshape' = [sshape EXCEPT ![vcur] = IF @ = NOSH THEN LitShape(c.shape) ELSE @]   \* replace_nodes_and_values keeps the old value's shape
+          /\ sshape' = [sshape EXCEPT ![vcur] = IF @ \in {NOSH, NOTYPE} THEN LitShape(c.shape) ELSE @]   \* replace_nodes_and_values keeps the old value's shape
           /\ Advance([k |-> "fold", n |-> ConstNode(c), dev |-> {}])
      ELSE /\ UNCHANGED <<cval, sshape>>
           /\ Advance([k |-> Kind(cur), n |-> cur, dev |-> {}])
   /\ UNCHANGED <<ins, nodes, meta, stage, rep>>
 \* a partial evaluator returned a replacement: the new node is visited next (same pass)
-Replace(n, sym, devs) ==
+NoReplace(sym) == NoReplaceF(sym, faithful)
+ReplaceF(n, sym, devs, fa) ==
+  /\ faithful' = fa
   /\ symmap' = IF sym = NOSYM THEN symmap ELSE [symmap EXCEPT ![vcur] = sym]
   /\ cur' = n /\ phase' = "enter" /\ pc' = pc
   /\ dec' = [dec EXCEPT ![pc].dev = @ \cup devs]
   /\ UNCHANGED <<ins, nodes, meta, stage, sshape, cval, rep>>
+Replace(n, sym, devs) == ReplaceF(n, sym, devs, faithful)
 Evaluating(op) == Folding /\ phase = "eval" /\ cur.op = op
 IdentityOf(o) == Node("Identity", <<o>>, <<>>)
 
@@ -420,9 +444,9 @@ AbsCodeGuard(sv) == sv # NOSV /\ ~\E i \in 1..Len(sv) : IsLit(sv[i]) /\ sv[i][1]
 AbsDesignGuard(sv) == sv # NOSV /\ \A i \in 1..Len(sv) : NonNegDim(sv[i])
 EvalAbs ==
   /\ Evaluating("Abs")
-  /\ LET sv == ShapeValue(cur.a[1]) IN
-     /\ ~("abs_assumes_nonneg" \in Deviations /\ AbsCodeGuard(sv) /\ ~AbsDesignGuard(sv))
-     /\ IF AbsDesignGuard(sv) THEN Replace(IdentityOf(cur.a[1]), NOSYM, {}) ELSE NoReplace(NOSYM)
+  /\ LET sv == ShapeValue(cur.a[1])
+         fa == faithful /\ ~("abs_assumes_nonneg" \in Deviations /\ AbsCodeGuard(sv) /\ ~AbsDesignGuard(sv))
+     IN IF AbsDesignGuard(sv) THEN ReplaceF(IdentityOf(cur.a[1]), NOSYM, {}, fa) ELSE NoReplaceF(NOSYM, fa)
 Dev_AbsIdentity_MaybeNegative ==
   /\ Evaluating("Abs") /\ "abs_assumes_nonneg" \in Deviations
   /\ LET sv == ShapeValue(cur.a[1]) IN
@@ -443,17 +467,17 @@ EvalCast ==      \* the only Cast in the menu is int64 -> int64
 EvalIdentity ==
   /\ Evaluating("Identity")
   /\ LET o == cur.a[1]
-         m == IF o.t = "r" THEN MergeShapes(sshape[o.i], sshape[vcur]) ELSE SFAIL
+         m == IF o.t = "r" THEN MergeShapes(SShapeOf(o), SShapeOf(R(vcur))) ELSE SFAIL
      IN /\ symmap' = [symmap EXCEPT ![vcur] = SymVal(o)]
         /\ IF Foldable(cur)
            THEN LET c == EvalNode(cur, cval) IN
                 /\ cval' = [cval EXCEPT ![vcur] = c]
-                /\ sshape' = [sshape EXCEPT ![vcur] = IF @ = NOSH THEN LitShape(c.shape) ELSE @]   \* replace_nodes_and_values keeps the old value's shape
+                /\ sshape' = [sshape EXCEPT ![vcur] = IF @ \in {NOSH, NOTYPE} THEN LitShape(c.shape) ELSE @]   \* replace_nodes_and_values keeps the old value's shape
                 /\ Advance([k |-> "fold", n |-> ConstNode(c), dev |-> {}])
            ELSE /\ cval' = cval
                 /\ sshape' = IF m = SFAIL THEN sshape ELSE [sshape EXCEPT ![o.i] = m]
                 /\ Advance([k |-> Kind(cur), n |-> cur, dev |-> {}])
-  /\ UNCHANGED <<ins, nodes, meta, stage, rep>>
+  /\ UNCHANGED <<ins, nodes, meta, stage, rep, faithful>>
 ZeroSize(o, axis) == LET s == SShapeOf(o) IN
                      s # NOSH /\ axis >= -Len(s) /\ axis < Len(s) /\ s[(IF axis < 0 THEN axis + Len(s) ELSE axis) + 1] = Lit(0)
 EvalConcat ==
@@ -503,29 +527,32 @@ Check(j, fs) ==
       symok |-> ok => \A i \in 1..NV : symmap[i].k = "shape" => ConcMatch(symmap[i].d, vo[i].data, b),
       valok |-> ok => \A i \in 1..NV : symmap[i].k = "val" => vo[i] = OV(symmap[i].o, vo),
       cvok |-> ok => \A i \in 1..NV : cval[i] # NOC => vo[i] = cval[i],
-      shok |-> ok => \A i \in 1..NV : sshape[i] # NOSH => ShapeFits(sshape[i], vo[i], b)]
+      shok |-> ok => \A i \in 1..NV : sshape[i] \notin {NOSH, NOTYPE} => ShapeFits(sshape[i], vo[i], b)]
 
 Finish == /\ stage = "fold" /\ pc > Len(nodes)
           /\ stage' = "done"
           /\ rep' = LET fs == FreeSeq IN [j \in 1..NBOf(fs) |-> Check(j, fs)]
-          /\ UNCHANGED <<ins, nodes, meta, pc, phase, cur, sshape, cval, symmap, dec>>
+          /\ UNCHANGED <<ins, nodes, meta, pc, phase, cur, sshape, cval, symmap, dec, faithful>>
 
 Init == /\ ins \in InputMenu
         /\ nodes = <<>> /\ stage = "build" /\ pc = 0 /\ phase = "" /\ cur = Node("", <<>>, <<>>)
         /\ meta = [i \in 1..Len(ins) |-> MetaF(Len(ins[i]))]
-        /\ sshape = <<>> /\ cval = <<>> /\ symmap = <<>> /\ dec = <<>> /\ rep = <<>>
+        /\ sshape = <<>> /\ cval = <<>> /\ symmap = <<>> /\ dec = <<>> /\ rep = <<>> /\ faithful = TRUE
 Next == Gen \/ StartFold \/ Fold \/ Finish
 Spec == Init /\ [][Next]_vars
 
 -----------------------------------------------------------------------------
 (* properties *)
 Done == stage = "done"
-\* C09 at design level: whatever the pass derived from shapes holds at every accepted binding, and
-\* the folded model returns what the original returns
-Sound == Done => \A j \in 1..Len(rep) : rep[j].same /\ rep[j].symok /\ rep[j].valok /\ rep[j].cvok /\ rep[j].shok
-\* implementation model: a departure needs a named deviation
-DevExplains == Done => ((\E j \in 1..Len(rep) : ~(rep[j].same /\ rep[j].symok /\ rep[j].valok /\ rep[j].cvok))
-                         => \E k \in 1..Len(nodes) : dec[k].dev # {})
+AllOK(r) == r.same /\ r.symok /\ r.valok /\ r.cvok /\ r.shok
+UsedDevs == UNION {dec[k].dev : k \in 1..Len(dec)}
+\* C09 at design level: in every pass that takes no deviation step, whatever was derived from shapes holds at
+\* every accepted binding, and the folded model returns what the original returns.  (With Deviations = {} these
+\* are all passes; with Deviations = AllDevs the design's step stays enabled next to the code's, so one run
+\* checks the design and produces the implementation model's predictions.)
+DesignSound == (Done /\ UsedDevs = {}) => \A j \in 1..Len(rep) : AllOK(rep[j])
+\* the same without the escape: must FAIL when deviations are on (SymShape_vacuity.cfg)
+Sound == Done => \A j \in 1..Len(rep) : AllOK(rep[j])
 \* static shapes are sound in both models (the deviation does not touch them)
 ShapesSound == Done => \A j \in 1..Len(rep) : rep[j].shok
 \* non-vacuity witnesses (negated: TLC must report a violation)
@@ -533,11 +560,13 @@ NoSymbolicReshapeIdentity == ~(Done /\ \E k \in 1..Len(nodes) : nodes[k].op = "R
                                        /\ ~AllLit(sshape[nodes[k].a[1].i]) /\ \E j \in 1..Len(rep) : rep[j].ok)
 NoCompositeSymbol == ~(Done /\ \E i \in 1..NV : symmap[i].k = "shape" /\ \E q \in 1..Len(symmap[i].d) : Len(symmap[i].d[q]) > 1)
 
-Emit == Done => PrintT(<<"CASE", ToJson([ins |-> ins, nodes |-> nodes, outs |-> OutSeq(nodes), free |-> FreeSeq,
-                                          meta |-> meta, sym |-> symmap, sshape |-> sshape, cval |-> cval, dec |-> dec,
-                                          rep |-> [j \in 1..Len(rep) |-> [b |-> rep[j].b, ok |-> rep[j].ok, un |-> rep[j].un, o |-> rep[j].o,
-                                                                          same |-> rep[j].same,
-                                                                          abs |-> rep[j].symok /\ rep[j].valok /\ rep[j].cvok /\ rep[j].shok]]])>>)
+\* one JSON line per finished pass of the implementation model (faithful: took the code's step everywhere);
+\* printed as a bare string so that the harness can read it with a C-speed JSON parser
+Emit == (Done /\ faithful) =>
+          PrintT(ToJson([ins |-> ins, nodes |-> nodes, outs |-> OutSeq(nodes), free |-> FreeSeq,
+                                   meta |-> meta, sym |-> symmap, sshape |-> sshape, dec |-> dec, devs |-> UsedDevs,
+                                   rep |-> [j \in 1..Len(rep) |-> [b |-> rep[j].b, ok |-> rep[j].ok, un |-> rep[j].un, o |-> rep[j].o,
+                                                                   same |-> rep[j].same, abs |-> AllOK(rep[j])]]]))
 
 -----------------------------------------------------------------------------
 (* configurations *)
@@ -547,12 +576,14 @@ K == 1003
 U1 == 2001
 U2 == 2002
 U3 == 2003
-MenuQuick == {<< <<N>> >>, << <<N, 4>> >>, << <<N, M>> >>, << <<U1, 3>> >>, << <<U1, U2>> >>, << <<2, 3>> >>,
-              << <<N, 0>> >>}
+MenuQuick == {<< <<N>> >>, << <<N, M>> >>, << <<N, 0>> >>, << <<U1, 3>>, <<U2, 3>> >>, << <<N, 3>>, <<M, 3>> >>}
 MenuTwo == {<< <<N, 3>>, <<N, 3>> >>, << <<N, M>>, <<M>> >>, << <<U1, 3>>, <<U2, 3>> >>, << <<N, 3>>, <<M, 3>> >>,
             << <<N, 1>>, <<1, M>> >>, << <<N, 3>>, <<0, 3>> >>}
 MenuSim == MenuQuick \cup MenuTwo \cup
            {<< <<N, M, K>> >>, << <<N, 1, M>> >>, << <<U1, N>>, <<U2, N>> >>, << <<N, M>>, <<N, K>> >>, << <<2, N>>, <<N>> >>,
             << <<N, M>>, <<N, M>> >>, << <<1, N>>, <<M, 1>> >>, << <<U1, U2, 2>> >>, << <<N, N>> >>, << <<0, N>>, <<M, N>> >>}
+MenuThorough == MenuQuick \cup MenuTwo \cup {<< <<U1, U2>> >>, << <<2, 3>> >>, << <<N, 4>> >>}
+MenuChain == {<< <<N>> >>, << <<1>> >>}
+MenuVac == {<< <<N>> >>}
 ValsStd == {0, 1, 2, 3, 7}
 =============================================================================
